@@ -103,10 +103,8 @@ impl<A: Adapter + 'static> Adapter for BrotliAdapter<A> {
     fn list_objects(&self, ext: &str) -> Result<Vec<String>> {
         let ext = ext.to_string() + ".brotli"; // Change key to avoid mismatching cache objects
         let result = self.backend.list_objects(&ext)?;
-        Ok(result
-            .into_iter()
-            .map(|k| k.trim_end_matches(".brotli").to_string())
-            .collect())
+        // The backend has already removed the requested suffix (which includes the wrapper's own)
+        Ok(result)
     }
 }
 
